@@ -61,6 +61,7 @@ type GraphSpec struct {
 	InSet      bool // items in a named set (unused members allowed) instead of direct Build arguments
 	Inline     bool // items in an inline wire.NewSet(...) argument of wire.Build
 	PerNode    bool // each node's items in a named set of their own: wire.Build(Set0, Set1, ...)
+	BindOuter  bool // InSet: the bindings are not in the set with their providers but in a wrapper set: Outer = NewSet(Set, binds...)
 	InlineWrap bool // PerNode: each per-node set reference is wrapped in an inline wire.NewSet(...)
 	Depth      int  // InSet: wrap the named set in this many further named sets (Set <- Outer1 <- Outer2 ...)
 	PairSets   bool // declare named sets pairwise in one var declaration
@@ -125,7 +126,7 @@ func (g *GraphSpec) Build() (*ir.Program, []*ir.Type) {
 			types[i] = shapeType(b, p, name, nd.TKind)
 		}
 	}
-	var items, items2 []*ir.Item
+	var items, items2, outerBinds []*ir.Item
 	var params []ir.Param
 	needErr, needCleanup := false, false
 	for i := 0; i < n; i++ {
@@ -184,7 +185,11 @@ func (g *GraphSpec) Build() (*ir.Program, []*ir.Type) {
 			conc := b.Leaf(p, fmt.Sprintf("C%d", i))
 			conc.Impls = []*ir.Type{types[i]}
 			items = append(items, ir.FuncItem(&ir.Func{Pkg: p, Name: fmt.Sprintf("PC%d", i), Params: deps, Out: conc, Err: nd.Err, Cleanup: nd.Cleanup}))
-			items = append(items, ir.BindItem(types[i], conc))
+			if g.BindOuter && g.InSet {
+				outerBinds = append(outerBinds, ir.BindItem(types[i], conc))
+			} else {
+				items = append(items, ir.BindItem(types[i], conc))
+			}
 		case NValue:
 			t := types[i]
 			if t.Strip().Kind == ir.KIface {
@@ -226,6 +231,9 @@ func (g *GraphSpec) Build() (*ir.Program, []*ir.Type) {
 	switch {
 	case g.InSet:
 		set := &ir.Set{Pkg: p, Name: "Set", Items: items}
+		if len(outerBinds) > 0 {
+			set = &ir.Set{Pkg: p, Name: "BindWrapper", Items: append([]*ir.Item{ir.SetRef(set)}, outerBinds...)}
+		}
 		for d := 1; d <= g.Depth; d++ {
 			set = &ir.Set{Pkg: p, Name: fmt.Sprintf("Outer%d", d), Items: []*ir.Item{ir.SetRef(set)}}
 		}
